@@ -189,9 +189,17 @@ func (in In) I32s(k string) []int32 {
 // toBytes rebuilds a byte slice, also with spare capacity holding garbage beyond its length.
 func toBytes(v interface{}) []byte {
 	l := toIs(v)
-	full := make([]byte, len(l)+3)
+	// 3 or 19 spare bytes (word-at-a-time code needs 8 and more to go wrong), holding 0xa5 or 0xff
+	spare, garbage := 3, byte(0xa5)
+	if len(l)%2 == 0 {
+		spare = 19
+	}
+	if len(l)%4 == 0 {
+		garbage = 0xff
+	}
+	full := make([]byte, len(l)+spare)
 	for i := range full {
-		full[i] = 0xa5
+		full[i] = garbage
 	}
 	r := full[:len(l)]
 	for i, x := range l {
@@ -213,8 +221,19 @@ func (in In) Str(k string) string { return string(in.Bs(k)) }
 func (in In) Strs(k string) []string {
 	l := toList(in.get(k))
 	r := make([]string, len(l))
+	total := 0
 	for i, x := range l {
 		r[i] = string(toBytes(x))
+		total += len(r[i])
+	}
+	// For every other list (by total length) neighbours that are prefix-related share memory: the shorter is a
+	// substring of the longer, equal ones are the very same string. Functions of the VALUES must not notice.
+	if total%2 == 0 {
+		for i := len(r) - 2; i >= 0; i-- {
+			if len(r[i]) <= len(r[i+1]) && r[i+1][:len(r[i])] == r[i] {
+				r[i] = r[i+1][:len(r[i])]
+			}
+		}
 	}
 	return r
 }
